@@ -35,7 +35,7 @@ func esc(s string) string {
 		if okChar(r) {
 			b.WriteRune(r)
 		} else {
-			fmt.Fprintf(&b, "%%%x;", r)
+			fmt.Fprintf(&b, "%%%x$", r)
 		}
 	}
 	return b.String()
